@@ -21,6 +21,8 @@ for f in "${list[@]}"; do
     *) name="$(basename "$f" .diff)"; prop="$(echo "${name%%-*}" | tr a-z A-Z)";;
   esac
   [ -n "$FILTER" ] && [[ "$name" != *"$FILTER"* ]] && continue
+  # SENS_EXCLUDE: extended regex of names to leave out (e.g. the ones known to take 10-45 minutes)
+  [ -n "${SENS_EXCLUDE:-}" ] && [[ "$name" =~ $SENS_EXCLUDE ]] && { echo "LEFT-OUT $name (SENS_EXCLUDE)"; continue; }
   if ! git -C /repo apply "$f" 2>"$TMP/apply.err"; then echo "SKIP $name: patch does not apply ($(head -1 "$TMP/apply.err"))"; continue; fi
   tests="-"
   if [ $TESTS -eq 1 ]; then
